@@ -158,6 +158,20 @@ fn extreme_programs() -> Vec<String> {
     }
     out
 }
+/// Multi-byte text placed before (earlier lines, same line), and after (same line, later lines) a program:
+/// (text in front of the program, text behind it). The mode prefix stays in front of everything.
+const WRAPPERS: [(&str, &str); 10] = [
+    ("é\n", ""),
+    ("éé\n", ""),
+    ("→\n", ""),
+    ("a→b\n\n", ""),
+    ("é", ""),
+    ("→\né→", ""),
+    ("", "\n→é"),
+    ("", "→"),
+    ("é\n→ ", "é\n"),
+    ("𝔸\n\n→→→\n", "\n"),
+];
 fn mini_vocab() -> Vec<String> {
     ["\\the", "\\def", "\\a", "{", "}", "#", "1", "-", "2147483647", "é", "\\fi", "\\read"].iter().map(|s| s.to_string()).collect()
 }
@@ -273,6 +287,9 @@ struct Families {
     extreme: Vec<Vec<String>>,
     extreme_cum: Vec<u64>,
     extreme_vocab: Vec<String>,
+    /// nonascii-lines: core strings up to this length, then every non-empty truncation of every seed
+    lines_core_len: u32,
+    lines_trunc_cum: Vec<u64>,
 }
 impl Families {
     fn new(quick: bool) -> Families {
@@ -296,7 +313,11 @@ impl Families {
         for e in &extreme {
             extreme_cum.push(extreme_cum.last().unwrap() + Self::n_dev(e.len() as u64, extreme_vocab.len() as u64));
         }
-        Families { extreme, extreme_cum, extreme_vocab, full, core, mini, seeds, dev1_cum, dev1_vocab, dev2_cum, short_full_len: if quick { 2 } else { 3 }, short_core_len: if quick { 3 } else { 4 }, resource: resource_programs() }
+        let mut lines_trunc_cum = vec![0u64];
+        for sd in &seeds {
+            lines_trunc_cum.push(lines_trunc_cum.last().unwrap() + sd.len() as u64);
+        }
+        Families { lines_core_len: if quick { 2 } else { 3 }, lines_trunc_cum, extreme, extreme_cum, extreme_vocab, full, core, mini, seeds, dev1_cum, dev1_vocab, dev2_cum, short_full_len: if quick { 2 } else { 3 }, short_core_len: if quick { 3 } else { 4 }, resource: resource_programs() }
     }
     fn n_dev(n: u64, k: u64) -> u64 {
         n + n * k + (n + 1) * k
@@ -326,6 +347,7 @@ impl Families {
             "seed-dev1" => self.dev1_cum.last().unwrap() * 4,
             "seed-dev2" => *self.dev2_cum.last().unwrap(),
             "resource" => self.resource.len() as u64 * 4,
+            "nonascii-lines" => (vcore::strings_upto(self.core.len() as u64, self.lines_core_len) + self.lines_trunc_cum.last().unwrap()) * WRAPPERS.len() as u64 * 4,
             "extreme-arith" => self.extreme.len() as u64 * 4,
             "extreme-arith-dev1" => *self.extreme_cum.last().unwrap(),
             _ => 0,
@@ -356,6 +378,29 @@ impl Families {
                 (mode, join(&chs))
             }
             "resource" => ((idx % 4) as usize, self.resource[(idx / 4) as usize].clone()),
+            "nonascii-lines" => {
+                let mode = (idx % 4) as usize;
+                let w = WRAPPERS[((idx / 4) % WRAPPERS.len() as u64) as usize];
+                let item = idx / 4 / WRAPPERS.len() as u64;
+                let ncore = vcore::strings_upto(self.core.len() as u64, self.lines_core_len);
+                let body = if item < ncore {
+                    let mut src = String::new();
+                    for d in vcore::nth_string(self.core.len() as u64, item) {
+                        append_tok(&mut src, &self.core[d as usize]);
+                    }
+                    src
+                } else {
+                    // the first k+1 chunks of a seed: the input ends inside whatever construct is open there
+                    let j = item - ncore;
+                    let sd = match self.lines_trunc_cum.binary_search(&j) {
+                        Ok(i) => i,
+                        Err(i) => i - 1,
+                    };
+                    let k = (j - self.lines_trunc_cum[sd]) as usize;
+                    join(&self.seeds[sd][..=k])
+                };
+                (mode, format!("{}{}{}", w.0, body, w.1))
+            }
             "extreme-arith" => ((idx % 4) as usize, join(&self.extreme[(idx / 4) as usize])),
             "extreme-arith-dev1" => {
                 let e = match self.extreme_cum.binary_search(&idx) {
@@ -916,6 +961,7 @@ fn main() {
     run_family(&mut ctx, &fams, "short-full", &format!("every string of <= {} tokens over the full vocabulary ({nf} tokens: every installed primitive, braces, specials, numbers at every limit, non-ASCII) x 4 interaction modes", fams.short_full_len));
     run_family(&mut ctx, &fams, "short-core", &format!("every string of <= {} tokens over a {nc}-token core (registers, \\the, definitions, conditionals, \\expandafter, \\read/\\input) x 4 interaction modes", fams.short_core_len));
     run_family(&mut ctx, &fams, "seed-dev1", &format!("{} seeds (the repository's all_error_cases + 32 idioms), unchanged and with every single deletion / substitution / insertion of a token from a {}-token vocabulary at every position, x 4 interaction modes", fams.seeds.len(), fams.dev1_vocab.len()));
+    run_family(&mut ctx, &fams, "nonascii-lines", &format!("every core string of <= {} tokens and every non-empty truncation of every seed (the input ends inside the construct that is open there), each wrapped in {} placements of multi-byte text (2-, 3- and 4-byte characters on one or several earlier lines, earlier on the same line, later on the same line, on later lines) x 4 interaction modes", fams.lines_core_len, WRAPPERS.len()));
     run_family(&mut ctx, &fams, "extreme-arith", &format!("{} programs x 4 interaction modes: a \\count, a \\dimen, and the width / stretch / shrink of a \\skip driven to exactly -2^31 and to 2^31-1 by \\advance wrap-around, then every arithmetic primitive with each operand of -1, 0, 1, 2, 2^31-1, -2^31 (from another register), and 29 coercion contexts (assignments with signs, fractions and units, glue components, conditionals, \\the, register indices, operands of \\advance/\\multiply/\\divide on other registers)", fams.extreme.len()));
     run_family(&mut ctx, &fams, "extreme-arith-dev1", &format!("the same {} programs with every single deletion / substitution / insertion of a token from a {}-token vocabulary at every position, scroll mode", fams.extreme.len(), fams.extreme_vocab.len()));
     run_family(&mut ctx, &fams, "resource", &format!("{} fixed programs x 4 interaction modes: an 8.6 GB \\newIntArray, runaway recursion (doubling, nested groups), 20000 nested groups / \\expandafter / \\iftrue, a 100000-character line, a 5000-digit number, a 50000-token macro body", fams.resource.len()));
